@@ -426,15 +426,17 @@ def walk (D : Defects) (P : Params) (sch : Schema) (s : Snapshot) (d : Bytes) : 
         else walk D P sch s d fuel c' lay'
     else .ok none
 
+/-- the first test of `parse_for_snapshot`: the row was deleted as far as this reader is concerned -/
+def deletedFor (D : Defects) (s : Snapshot) : Option Nat → Bool
+  | some x => committedBefore D s x || (!D.ownDeleteWalksDeltas && decide (x = s.xid))
+  | none => false
+
 /-- `TupleReader::parse_for_snapshot` -/
 def parseForSnapshot (D : Defects) (P : Params) (sch : Schema) (s : Snapshot) (d : Bytes) : R (Option Layout) :=
   match parseLast P sch d with
   | .error e => .error e
   | .ok lay =>
-    let deleted : Bool := match lay.vxmax with
-      | some x => committedBefore D s x || (!D.ownDeleteWalksDeltas && decide (x = s.xid))
-      | none => false
-    if deleted then .ok none
+    if deletedFor D s lay.vxmax then .ok none
     else if validFor D s lay then .ok (some lay)
     else walk D P sch s d d.length (alignUp lay.dataEnd P.dhAlign) lay
 
@@ -661,12 +663,14 @@ def firstVisible (D : Defects) (s : Snapshot) : List LVersion → Option LVersio
   | [] => none
   | v :: vs => if creatorVisible D s v.creator then some v else firstVisible D s vs
 
+/-- the deleter is the reader itself or committed before its snapshot -/
+def specDeleted (D : Defects) (s : Snapshot) : Option Nat → Bool
+  | some x => creatorVisible D s x
+  | none => false
+
 /-- THE SPECIFICATION: what a snapshot is entitled to decode from a row. -/
 def specVisible (D : Defects) (s : Snapshot) (L : LRow) : Option Row :=
-  let deleted : Bool := match L.deleter with
-    | some x => creatorVisible D s x
-    | none => false
-  if deleted then none
+  if specDeleted D s L.deleter then none
   else match firstVisible D s (L.cur :: L.hist.map (·.1)) with
     | some v => some { keys := L.keys, vals := v.vals }
     | none => none
